@@ -91,6 +91,8 @@ def f32lit : Handler := fun args impl =>
         | .u64 _ => "intpath" | .i64 _ => "intpath" | _ => "floatpath"
       { model := show32 (f32OfLiteral l),
         spec := if expected == impl then none
+                else if expected == "?" || !(impl == "E" || (readBits impl).isSome) then
+                  some s!"unexpected-observation {impl} (f64: {o64})"
                 else some s!"f32-not-once:{path} f64 result {o64} rounds to {expected}" }
     | none => bad "literal"
   | _ => bad "arity"
